@@ -2,6 +2,7 @@ import XzVerif.Gen.PanicSites
 import XzVerif.Gen.Tables
 import XzVerif.Model.ReadLoop
 import XzVerif.Codec.Lzma2
+import XzVerif.Proofs.Ring
 /-
   C11 — Readers never panic or stall on arbitrary input.
 
@@ -66,6 +67,31 @@ theorem C11_n_le_len {α : Type} (content : List α) (n : Nat) : (ReadLoop.readC
     · simp [h0, hl]; omega
     · simp [h0, hl]; omega
 
+/-- `decoderDict.writeMatch` at the level of the ring array and its indices (Model/Ring.lean, tied to the real
+    type by operation scripts): for every reachable ring state, every distance and length the outcome is one of
+    the three reported errors or the LZ copy — the `panic` in its copy loop ("d.buf.Write returned error") is
+    unreachable, and the ring afterwards represents exactly the history the list-level model has. -/
+theorem C11_writeMatch_never_panics (d : Ring.DDict) (a : Ring.Abs) (cap : Nat) (h : d.Rel a cap) (dist len : Nat) :
+    d.writeMatch dist len = .distRange ∨ d.writeMatch dist len = .lenRange ∨ d.writeMatch dist len = .noSpace ∨
+    ∃ d', d.writeMatch dist len = .ok d' ∧ d'.Rel ⟨Ring.copyMatchList a.W dist len, a.r⟩ cap := by
+  obtain ⟨h1, h2, h3, h4⟩ := Ring.ddict_writeMatch d a cap h dist len
+  by_cases hd : 0 < dist ∧ dist ≤ min a.W.length cap
+  · by_cases hl : 0 < len ∧ len ≤ 273
+    · by_cases hs : len ≤ cap - (a.W.length - a.r)
+      · exact Or.inr (Or.inr (Or.inr (h4 hd hl hs)))
+      · exact Or.inr (Or.inr (Or.inl (h3 hd hl (by omega))))
+    · exact Or.inr (Or.inl (h2 hd hl))
+  · exact Or.inl (h1 hd)
+
+/-- reading never delivers more than asked and never more than is buffered, at ring level -/
+theorem C11_ring_read_bounded (b : Ring.Buf) (a : Ring.Abs) (cap : Nat) (h : b.Rel a cap) (l : Nat) :
+    (b.read l).2.data.toList.length ≤ l := by
+  rw [(Ring.read_rel b a cap h l).1]
+  simp only [List.length_take]
+  omega
+
 example : Gen.panicSites.length = 18 := by decide
+
+example : (Ring.DDict.new 8).Rel ⟨[], 0⟩ 8 := ⟨Ring.new_rel 8, rfl, by decide⟩
 
 end Props.C11
